@@ -29,7 +29,13 @@ FT = {
     # two field types that are equal up to the lifetime
     "refaT": ("&'a T", ["&1u8", "&3u8"], "all"),
     "refbT": ("&'b T", ["&1u8", "&2u8"], "all"),
+    # the parameter reached only through a projection (spec["pj"]: `T: Pj` declared, `Pj` in scope with `u8: Pj<Out = u8>`)
+    "pjT": ("T::Out", ["1u8", "3u8"], "all"),
+    "vpjT": ("::std::vec::Vec<T::Out>", ["::std::vec::Vec::new()", "::std::vec![2u8]"], "all"),
+    "qpjT": ("<T as Pj>::Out", ["0u8", "2u8"], "all"),
 }
+# (identity projections, also for the types of the applicability probes: there `T: Trait` and `T::Out: Trait` say the same)
+PJ_SCOPE = "pub trait Pj { type Out; } impl Pj for u8 { type Out = u8; } impl Pj for f32 { type Out = f32; } impl Pj for ::dxrt::P { type Out = ::dxrt::P; }"
 RAW_FIELDS = ["r#type", "r#fn", "r#match"]
 RAW_VARIANTS = ["r#Self_", "r#loop", "r#Box"]
 
@@ -102,7 +108,7 @@ def gen_spec(rng):
             g2 += "a"
         if "b" in g and "refbT" in used:
             g2 += "b"
-        if "T" in g and used & {"T", "optT", "refaT", "refbT"}:
+        if "T" in g and used & {"T", "optT", "refaT", "refbT", "pjT", "vpjT", "qpjT"}:
             g2 += "T"
         if "N" in g and "arr" in used:
             g2 += "N"
@@ -144,7 +150,7 @@ def generics(spec):
         ps.append("'b")
         inst.append("'static")
     if "T" in g:
-        ps.append("T" + (" = u8" if spec["gdefault"] else ""))
+        ps.append("T" + (": Pj" if spec.get("pj") == "inline" else "") + (" = u8" if spec["gdefault"] else ""))
         inst.append("u8")
     if "N" in g:
         ps.append("const N: ::core::primitive::usize" + (" = 2" if spec["gdefault"] else ""))
@@ -156,6 +162,8 @@ def generics(spec):
     wh = ""
     if spec["where"] and "T" in g:
         wh = " where T: ::core::marker::Copy"
+    if spec.get("pj") == "where" and "T" in g:
+        wh = (wh + "," if wh else " where") + " T: Pj"
     if not ps:
         return "", "", ""
     return "<" + ", ".join(ps) + ">", "<" + ", ".join(inst) + ">", wh
@@ -404,6 +412,15 @@ def core():
     specs.append(dict(base, kind="enum", gen="abT", traits=["Clone", "Debug", "PartialEq"], entry="derive", disc=False,
                       variants=[{"style": "tuple", "fields": ["refaT"]}, {"style": "named", "fields": ["u8", "refbT"]}]))
     specs.append(dict(base, kind="struct", gen="aT", traits=no_default, variants=[{"style": "named", "fields": ["refaT", "u8", "refaT"]}]))
+    # the type parameter reached only through a projection (`T::Out`, `Vec<T::Out>`, `<T as Pj>::Out`), alone and next to `T` itself
+    k = 0
+    for pj in ("inline", "where"):
+        for fields in (["pjT"], ["u8", "vpjT"], ["string", "pjT", "pjT"], ["pjT", "T"], ["vpjT", "optT", "qpjT"]):
+            k += 1
+            specs.append(dict(base, kind="struct", gen="T", pj=pj, scope=PJ_SCOPE, traits=list(ALL8), entry="attr" if k % 2 else "derive", where=(k % 3 == 0),
+                              variants=[{"style": "tuple" if k % 2 else "named", "fields": fields}]))
+            specs.append(dict(base, kind="enum", gen="T", pj=pj, scope=PJ_SCOPE, traits=list(ALL8), entry="derive" if k % 2 else "attr", disc=False, dv=0,
+                              gdefault=(k % 4 == 0), variants=[{"style": "unit", "fields": []}, {"style": "named" if k % 2 else "tuple", "fields": fields}]))
     return specs
 
 
